@@ -323,3 +323,12 @@ func recvNamed(fn *ssa.Function) *types.Named {
 	}
 	return namedOf(fn.Signature.Recv().Type())
 }
+
+// constBool: the value of a boolean constant.
+func constBool(v ssa.Value) (val, ok bool) {
+	c, isC := v.(*ssa.Const)
+	if !isC || c.Value == nil || c.Value.Kind() != constant.Bool {
+		return false, false
+	}
+	return constant.BoolVal(c.Value), true
+}
